@@ -135,7 +135,10 @@ KINDS = ("ping", "lastseen", "picture-get", "statuses-get", "status-set", "priva
 
 def _reply(rid, rtype_is_result, body, xmlns=None):
     N = SC.N()
-    attrs = {"id": rid, "type": "result" if rtype_is_result else "error", "from": "s.whatsapp.net"}
+    # the type arrives as a string made at run time (a peer may send it as a plain string instead of a dictionary token): equal to
+    # the library's constant, not the same object
+    rtype = "".join(list("result" if rtype_is_result else "error"))
+    attrs = {"id": rid, "type": rtype, "from": "s.whatsapp.net"}
     kids = body() if rtype_is_result else [N("error", {"code": "404", "text": "item-not-found"})]
     return N("iq", attrs, kids)
 
